@@ -455,7 +455,7 @@ func forgedCheck(label string, genuine verdict, forged []byte, shift int, D, cms
 	if kOK && vf.si.Arr != nil {
 		data := synth.Lenient(forged, vf.si.Arr)
 		h := sha1.Sum(data)
-		r.Case("docModifiedP7", []string{vh.Hex(D), vh.Bool(bytes.Equal(h[:], cmsContent)), "true", vh.Hex(cmsContent),
+		r.Case("docModifiedP7", []string{vh.Hex(D), "", "true", vh.Bool(bytes.Equal(h[:], cmsContent)), "true", vh.Hex(cmsContent),
 			vh.Int(int64(len(forged))), vh.Hex(forged), ints64(vf.si.Arr), contentsArg(vf.si.Contents),
 			vh.Int(int64(vf.si.Increment)), "false"}, triS(vf.docmod))
 	}
@@ -486,7 +486,7 @@ func e2eForgedContent(s *synth.Signer) {
 			}
 			// K on the genuine document: no eContent
 			if vg.ok && vg.si.Arr != nil {
-				r.Case("docModifiedP7", []string{vh.Hex(D), "false", "true", "", vh.Int(int64(len(g.Bytes))), vh.Hex(g.Bytes),
+				r.Case("docModifiedP7", []string{vh.Hex(D), "", "true", "false", "true", "", vh.Int(int64(len(g.Bytes))), vh.Hex(g.Bytes),
 					ints64(vg.si.Arr), contentsArg(vg.si.Contents), vh.Int(int64(vg.si.Increment)), "false"}, triS(vg.docmod))
 			}
 			// (a) the originally signed bytes as eContent, a different page payload in the file
@@ -549,6 +549,171 @@ func e2eForgedContent(s *synth.Signer) {
 				continue
 			}
 			forgedCheck("sample-cms-with-econtent "+label, vg, f.Bytes, shift, D, D, shift == 1)
+		}
+	}
+}
+
+// ---------- signature kinds: (encapsulated?, signed attributes?) and adbe.x509.rsa_sha1 ----------
+type kind struct {
+	name      string
+	subFilter string
+	hasAttrs  bool
+	encaps    bool
+	p1        bool
+	baseline  bool // an intact document of this kind is expected to be reported unmodified (shift=1)
+}
+
+var kinds = []kind{
+	{"pkcs7-detached+attrs", "adbe.pkcs7.detached", true, false, false, true},
+	{"pkcs7-detached-noattrs", "adbe.pkcs7.detached", false, false, false, false},
+	{"pkcs7-sha1+attrs", "adbe.pkcs7.sha1", true, true, false, true},
+	{"pkcs7-sha1-noattrs", "adbe.pkcs7.sha1", false, true, false, true},
+	{"x509-rsa-sha1", "adbe.x509.rsa_sha1", false, false, true, true},
+}
+
+func buildKind(s *synth.Signer, k kind) (*synth.Doc, error) {
+	opt := synth.Options{Payload: randPayload(5 + r.Rand.Intn(30)), SubFilter: k.subFilter, ExtraObjs: r.Rand.Intn(2)}
+	switch {
+	case k.p1:
+		opt.MakeCMS = s.P1Contents
+		opt.ExtraSigEntries = s.CertEntry()
+	case k.encaps:
+		opt.MakeCMS = func(data []byte) ([]byte, error) {
+			h := sha1.Sum(data)
+			cms, err := s.CMS(h[:]) // messageDigest attribute = SHA-256 of the encapsulated SHA-1 value
+			if err != nil {
+				return nil, err
+			}
+			if cms, err = synth.InjectContent(cms, h[:]); err != nil {
+				return nil, err
+			}
+			if !k.hasAttrs {
+				return s.StripAttrs(cms, h[:])
+			}
+			return cms, nil
+		}
+	case !k.hasAttrs:
+		opt.MakeCMS = func(data []byte) ([]byte, error) {
+			cms, err := s.CMS(data)
+			if err != nil {
+				return nil, err
+			}
+			return s.StripAttrs(cms, data)
+		}
+	}
+	return synth.Build(s, opt)
+}
+
+// K: the model's decision for a document of kind k whose /Contents blob is untouched
+func kindCase(k kind, d *synth.Doc, D []byte, f []byte, v verdict) {
+	if !v.ok || v.si.Arr == nil || v.si.SubFilter != k.subFilter || v.si.Contents == nil || !strings.EqualFold(*v.si.Contents, d.Hex) {
+		return
+	}
+	tail := []string{vh.Int(int64(len(f))), vh.Hex(f), ints64(v.si.Arr), contentsArg(v.si.Contents), vh.Int(int64(v.si.Increment)), "false"}
+	if k.p1 {
+		r.Case("docModifiedP1", append([]string{vh.Hex(D)}, tail...), triS(v.docmod))
+		return
+	}
+	var content []byte
+	if k.encaps {
+		h := sha1.Sum(D)
+		content = h[:]
+	}
+	signedOver := D
+	if k.encaps {
+		signedOver = content
+	}
+	good, goodSig := "", ""
+	if k.hasAttrs {
+		good = vh.Hex(signedOver)
+	} else {
+		goodSig = vh.Hex(signedOver)
+	}
+	h := sha1.Sum(synth.Lenient(f, v.si.Arr))
+	r.Case("docModifiedP7", append([]string{good, goodSig, vh.Bool(k.hasAttrs), vh.Bool(k.encaps && bytes.Equal(h[:], content)), "true", vh.Hex(content)}, tail...), triS(v.docmod))
+	r.Count("k:" + k.name)
+}
+
+func e2eKinds(s *synth.Signer) {
+	for _, k := range kinds {
+		for n := 0; n < r.Pick(1, 3); n++ {
+			d, err := buildKind(s, k)
+			if err != nil {
+				r.OracleFail("c27-harness-cannot-build-kind", map[string]any{"kind": k.name}, err.Error())
+				continue
+			}
+			D := synth.Lenient(d.Bytes, d.ByteRange)
+			for _, shift := range []int{0, 1} {
+				v := verdictOf(d.Bytes, shift)
+				r.Count(fmt.Sprintf("kind-baseline %s shift=%d docmodified=%s", k.name, shift, triS(v.docmod)))
+				if shift == 1 && v.ok && v.docmod == model.False {
+					baselineOK[k.name]++
+				}
+				kindCase(k, d, D, d.Bytes, v)
+			}
+			// named regions, always; then every signed offset (every second one in the quick tier)
+			b := d.Bytes
+			regions := map[string]int{
+				"range1-header":  11,
+				"range1-catalog": bytes.Index(b, []byte("/Catalog")) + 3,
+				"range1-payload": bytes.Index(b, []byte("stream\n")) + 8,
+				"after-contents": d.GapEnd,
+				"after-contents+1": d.GapEnd + 1,
+				"xref-entry":     bytes.LastIndex(b, []byte("\nxref\n")) + 31,
+				"trailer":        bytes.LastIndex(b, []byte("trailer")) + 12,
+				"startxref-val":  bytes.LastIndex(b, []byte("startxref\n")) + 10,
+				"eof-marker":     bytes.LastIndex(b, []byte("%%EOF")) + 2,
+				"last-byte":      len(b) - 1,
+			}
+			tamper := func(region string, i int, bit uint, shift int, withK bool) {
+				f := append([]byte{}, b...)
+				f[i] ^= 1 << bit
+				v := verdictOf(f, shift)
+				in := map[string]any{"kind": k.name, "region": region, "offset": i, "bit": bit, "shift": shift}
+				switch {
+				case v.panicMs != "":
+					in["file"] = vh.Hex(f)
+					r.OracleFail("c27-panic-validate", in, v.panicMs)
+				case v.ok && (v.docmod == model.False || v.status == model.SignatureStatusValid):
+					in["file"] = vh.Hex(f)
+					r.OracleFail("c27-tampered-signed-byte-accepted", in, fmt.Sprintf("tampered %s document reported status=%v docModified=%s", k.name, v.status, triS(v.docmod)))
+				default:
+					r.OracleOK()
+				}
+				if withK && (i < d.DictStart || i >= d.DictEnd) {
+					kindCase(k, d, D, f, v)
+				}
+			}
+			for name, i := range regions {
+				if i < 0 || i >= len(b) || !inSigned(d.ByteRange, int64(i)) {
+					continue
+				}
+				for _, bit := range []uint{0, 5} {
+					for _, shift := range []int{0, 1} {
+						r.Count("kind-tamper:" + name)
+						tamper(name, i, bit, shift, true)
+					}
+				}
+			}
+			for i := 0; i < len(b); i++ {
+				if !inSigned(d.ByteRange, int64(i)) || (!r.Thorough() && r.Rand.Intn(2) == 0) {
+					continue
+				}
+				region := "range1"
+				if i >= d.GapEnd {
+					region = "range2"
+				}
+				r.Count("kind-tamper:" + k.name + " " + region)
+				shift := 1
+				if r.Rand.Intn(4) == 0 {
+					shift = 0
+				}
+				tamper(region, i, uint(r.Rand.Intn(8)), shift, r.Rand.Intn(12) == 0)
+			}
+		}
+		if k.baseline && baselineOK[k.name] == 0 {
+			r.OracleFail("c27-harness-baseline-never-unmodified", map[string]any{"what": "synthesised " + k.name + " documents"},
+				"no intact document of this kind is reported unmodified: its tamper oracle would be vacuous")
 		}
 	}
 }
@@ -667,5 +832,6 @@ func main() {
 	}
 	e2eSynth(s)
 	e2eForgedContent(s)
+	e2eKinds(s)
 	e2eSamples()
 }
